@@ -163,7 +163,7 @@ def write_adf12(blocks, annotate=True, count_width=5):
     return "".join(L)
 
 
-def gen_adf12(rng, nblocks=None, distinct=True):
+def gen_adf12(rng, nblocks=None, distinct=True, small=False):
     nblocks = nblocks or rng.choice([1, 2, 3, 5])
     expchar = rng.choice("DDE")
     blocks = []
@@ -178,6 +178,8 @@ def gen_adf12(rng, nblocks=None, distinct=True):
         g = lambda lo_, hi_: (lambda: tok_e82(rng, lo_, hi_, expchar))
         nb, nt, nd, nz, nm = (rng.choice([1, 2, 5, 6, 7, 12, 13, 23, 24]), rng.choice([1, 3, 6, 7, 11, 12]),
                               rng.choice([1, 4, 6, 7, 18, 24]), rng.choice([1, 2, 6, 7, 12]), rng.choice([1, 5, 6, 7, 12]))
+        if small:
+            nb, nt, nd, nz, nm = rng.choice([1, 2, 11]), rng.choice([1, 2]), rng.choice([1, 10]), 1, rng.choice([1, 2])
         b = {"upper": up, "lower": lo, "expchar": expchar, "qefref": tok_e82(rng, -10, -7, expchar),
              "parmref": [tok_e82(rng, 4, 5, expchar), tok_e82(rng, 2, 3, expchar), tok_e82(rng, 12, 14, expchar),
                          tok_e82(rng, 0, 0, expchar), tok_e82(rng, 0, 0, expchar)],
@@ -241,23 +243,29 @@ def write_adf11(t):
 
 
 ELEMENTS = [("hydrogen", 1), ("helium", 2), ("lithium", 3), ("beryllium", 4), ("boron", 5), ("carbon", 6),
-            ("nitrogen", 7), ("oxygen", 8), ("neon", 10), ("argon", 18)]
+            ("nitrogen", 7), ("oxygen", 8), ("neon", 10), ("argon", 18), ("iron", 26), ("krypton", 36)]
 
 
-def gen_adf11(rng, nd=None, nt=None, resolved=None, element=None):
+def gen_adf11(rng, nd=None, nt=None, resolved=None, element=None, full=False, meta=None, safe=False):
+    """full: one block for every charge state Z1 = 1..Z of the element; meta: metastable counts of a resolved file
+    (len = stages + 1); safe: keep clear of the recorded small-grid mis-read (unresolved, <= 8 densities, negative
+    first log10 Te) by starting the temperature grid at 1 eV in that case"""
     name, z = element or rng.choice(ELEMENTS[:9])
     nd = nd or rng.choice([1, 2, 3, 7, 8, 9, 15, 16, 17, 24, 26])
     nt = nt or rng.choice([1, 2, 5, 8, 9, 12, 16, 17, 30])
+    if meta is not None:
+        resolved = True
     if resolved is None:
         resolved = rng.random() < 0.35
     dens = increasing(rng, nd, lambda: tok_f105(rng, 7.0, 15.5))
-    temps = increasing(rng, nt, lambda: tok_f105(rng, -0.7, 4.2))
+    t_lo = 0.0 if (safe and not resolved and nd <= 8) else -0.7
+    temps = increasing(rng, nt, lambda: tok_f105(rng, t_lo, 4.2))
     blocks = []
-    meta = None
-    nstages = rng.randint(1, z)
+    nstages = (len(meta) - 1) if meta is not None else (z if full else rng.randint(1, z))
     z1s = list(range(1, nstages + 1))
     if resolved:
-        meta = [rng.choice([1, 1, 2]) for _ in range(nstages + 1)]
+        if meta is None:
+            meta = [rng.choice([1, 1, 2]) for _ in range(nstages + 1)]
         for z1 in z1s:
             for ip in range(1, meta[z1 - 1] + 1):
                 for ig in range(1, meta[z1] + 1):
@@ -331,13 +339,13 @@ def write_adf15(t):
     return "".join(L)
 
 
-def gen_adf15(rng, fmt, nblocks=None, nd=None, nt=None):
+def gen_adf15(rng, fmt, nblocks=None, nd=None, nt=None, isel_base=0, ncfg=None):
     nblocks = nblocks or rng.choice([1, 2, 3, 4, 6])
     types = ["EXCIT", "RECOM", "CHEXC"]
     blocks, index = [], []
     configs, cfg_by_id = [], {}
     if fmt == "full":
-        ncfg = rng.randint(2, 7)
+        ncfg = ncfg or rng.choice([2, 3, 4, 5, 6, 7, 12])
         seen = set()
         for cid in range(1, ncfg + 1):
             while True:
@@ -352,7 +360,7 @@ def gen_adf15(rng, fmt, nblocks=None, nd=None, nt=None):
             configs.append(c)
             cfg_by_id[cid] = c
     used = set()
-    isels = list(range(1, nblocks + 1))
+    isels = list(range(isel_base + 1, isel_base + nblocks + 1))
     if rng.random() < 0.3:
         rng.shuffle(isels)                     # index order is the file order, but blocks need not be sorted by isel
     for k in range(nblocks):
